@@ -3,10 +3,10 @@
 # Coq development, extraction, driver.
 set -e
 export GOFLAGS=-mod=mod GOPROXY=off GOSUMDB=off GOTOOLCHAIN=local
-mkdir -p /verif/build
-cd /verif/harness && cp /repo/go.sum go.sum && go build -tags verif -o /verif/build/vh .
-/verif/build/vh gen
-/verif/tools/mkcoqproject.sh
-cd /verif/coq && timeout 3000 make -k -j16 > /verif/build/coq-build.log 2>&1 || { tail -40 /verif/build/coq-build.log; echo "coq build incomplete"; }
-/verif/tools/build_driver.sh
+mkdir -p ${VERIF_ROOT:-/verif}/build
+cd ${VERIF_ROOT:-/verif}/harness && cp /repo/go.sum go.sum && go build -tags verif -o ${VERIF_ROOT:-/verif}/build/vh .
+${VERIF_ROOT:-/verif}/build/vh gen
+${VERIF_ROOT:-/verif}/tools/mkcoqproject.sh
+cd ${VERIF_ROOT:-/verif}/coq && timeout 3000 make -k -j16 > ${VERIF_ROOT:-/verif}/build/coq-build.log 2>&1 || { tail -40 ${VERIF_ROOT:-/verif}/build/coq-build.log; echo "coq build incomplete"; }
+${VERIF_ROOT:-/verif}/tools/build_driver.sh
 echo setup done
